@@ -188,4 +188,137 @@ example : resolve [(qInternal 1 "x", 10), (qInternal 2 "x", 20)] [("x", qInterna
 example : resolve [(qInternal 2 "x", 20)] [("x", qInternal 2 "x")] (qLocal 5 "x") (qInternal 1 "x") "x" = some 20 := by decide
 example : resolve [(qInternal 2 "x", 20)] ([] : List (String × String)) (qLocal 5 "x") (qInternal 1 "x") "x" = none := by decide
 
+/-! ## second part: invariants of the table over every history of definition attempts -/
+
+variable {δ : Type}
+
+theorem lookup_cons (k : String) (d : δ) (t : List (String × δ)) (q : String) :
+    lookup ((k, d) :: t) q = if k = q then some d else lookup t q := by
+  unfold lookup
+  by_cases h : k = q
+  · simp [List.find?, h]
+  · have hb : (k == q) = false := by simp [h]
+    simp [List.find?, hb, h]
+
+theorem lookup_none_of_not_mem (t : List (String × δ)) (q : String) (h : q ∉ t.map Prod.fst) :
+    lookup t q = none := by
+  induction t with
+  | nil => simp [lookup]
+  | cons a t ih =>
+    obtain ⟨k, d⟩ := a
+    simp only [List.map_cons, List.mem_cons, not_or] at h
+    rw [lookup_cons]
+    have : k ≠ q := fun e => h.1 e.symm
+    simp [this, ih h.2]
+
+theorem lookup_some_of_mem (t : List (String × δ)) (q : String) (h : q ∈ t.map Prod.fst) :
+    (lookup t q).isSome := by
+  induction t with
+  | nil => simp at h
+  | cons a t ih =>
+    obtain ⟨k, d⟩ := a
+    rw [lookup_cons]
+    by_cases hk : k = q
+    · simp [hk]
+    · simp only [List.map_cons, List.mem_cons] at h
+      rcases h with h | h
+      · exact absurd h.symm hk
+      · simp [hk, ih h]
+
+
+variable {δ : Type}
+
+/-- one definition attempt: the table afterwards (unchanged when the attempt is refused) -/
+def attempt (t : List (String × δ)) (q : String) (d : δ) : List (String × δ) :=
+  match define t q d with
+  | some t' => t'
+  | none => t
+
+def attempts (t : List (String × δ)) : List (String × δ) → List (String × δ)
+  | [] => t
+  | (q, d) :: rest => attempts (attempt t q d) rest
+
+theorem lookup_append_single (t : List (String × δ)) (q k : String) (d : δ) :
+    lookup (t ++ [(k, d)]) q = match lookup t q with
+      | some x => some x
+      | none => if k = q then some d else none := by
+  induction t with
+  | nil => simp [lookup_cons, lookup]
+  | cons a t ih =>
+    obtain ⟨k0, d0⟩ := a
+    rw [List.cons_append, lookup_cons, lookup_cons]
+    by_cases h : k0 = q
+    · simp [h]
+    · simp [h, ih]
+
+/-- a definition attempt changes the lookup of no *other* name -/
+theorem attempt_other (t : List (String × δ)) (q q' : String) (d : δ) (h : q ≠ q') :
+    lookup (attempt t q d) q' = lookup t q' := by
+  unfold attempt define
+  cases hl : lookup t q with
+  | some x => simp
+  | none =>
+    simp only []
+    rw [lookup_append_single]
+    cases lookup t q' <;> simp [h]
+
+/-- a binding once made is never changed by later attempts on the same name -/
+theorem attempt_keeps (t : List (String × δ)) (q : String) (d x : δ) (h : lookup t q = some x) :
+    lookup (attempt t q d) q = some x := by
+  unfold attempt define
+  simp [h]
+
+/-- a fresh name is bound to the definition given -/
+theorem attempt_binds (t : List (String × δ)) (q : String) (d : δ) (h : lookup t q = none) :
+    lookup (attempt t q d) q = some d := by
+  unfold attempt define
+  simp only [h]
+  rw [lookup_append_single]
+  simp [h]
+
+theorem attempt_nodup (t : List (String × δ)) (q : String) (d : δ) (h : (t.map Prod.fst).Nodup) :
+    ((attempt t q d).map Prod.fst).Nodup := by
+  unfold attempt define
+  cases hl : lookup t q with
+  | some x => simpa using h
+  | none =>
+    simp only [List.map_append, List.map_cons, List.map_nil]
+    rw [List.nodup_append]
+    refine ⟨h, by simp, ?_⟩
+    intro a ha b hb
+    simp at hb
+    subst hb
+    intro hab
+    subst hab
+    have := lookup_some_of_mem t a ha
+    simp [hl] at this
+
+/-- **Invariant over every history of definition attempts**: the keys of the table stay pairwise
+distinct (so no name ever has two bindings) … -/
+theorem attempts_nodup (t : List (String × δ)) (ops : List (String × δ)) (h : (t.map Prod.fst).Nodup) :
+    ((attempts t ops).map Prod.fst).Nodup := by
+  induction ops generalizing t with
+  | nil => exact h
+  | cons op rest ih => obtain ⟨q, d⟩ := op; exact ih _ (attempt_nodup t q d h)
+
+/-- … and a binding that exists at some point is the binding at every later point. -/
+theorem attempts_keep (t : List (String × δ)) (ops : List (String × δ)) (q : String) (x : δ) (h : lookup t q = some x) :
+    lookup (attempts t ops) q = some x := by
+  induction ops generalizing t with
+  | nil => exact h
+  | cons op rest ih =>
+    obtain ⟨q', d⟩ := op
+    apply ih
+    by_cases hq : q' = q
+    · subst hq; exact attempt_keeps t q' d x h
+    · rw [attempt_other t q' q d hq]; exact h
+
+/-- the first definition of a name in a history is the one every later reference finds -/
+theorem first_definition_wins (t : List (String × δ)) (q : String) (d : δ) (ops : List (String × δ)) (h : lookup t q = none) :
+    lookup (attempts t ((q, d) :: ops)) q = some d :=
+  attempts_keep _ ops q d (attempt_binds t q d h)
+
+example : lookup (attempts ([] : List (String × Nat)) [("a", 1), ("b", 2), ("a", 3)]) "a" = some 1 := by decide
+
+
 end Pdpy11.Props.C11
